@@ -80,5 +80,22 @@ func specs() map[string]propSpec {
 		},
 		Components: realStub,
 	}
+	m["C18"] = propSpec{
+		ID: "C18",
+		Jobs: []job{
+			{Label: "race", Pkg: "./sim/engines/c18", Race: true, Workers: [2]int{8, 10}, Checks: [2]int{0, 0}, Budget: [2]int{55, 900}},
+			{Label: "state", Pkg: "./sim/engines/c18", Workers: [2]int{6, 6}, Checks: [2]int{0, 0}, Budget: [2]int{55, 900}},
+		},
+		Rule: "a record is 2-4 packages (the same program several times, or different synthetic / standard-library programs), each with its own gogen.Package, importer, file set, front-end schedule and fault plan, built on its own goroutine under the baton scheduler: a task yields before every builder operation and at up to 4 function-entry preemption points inside gogen (PCT style); the scheduler tape decides who runs. " +
+			"Oracles: the Go race detector (the baton hand-off is invisible to it, so conflicting accesses of two tasks are reported whatever the timing); per package, files and diagnostics byte-identical to the same record built alone before, and alone again after, the concurrent run; in the non-race configuration a structural fingerprint of every package-level variable (and the go/types universe) taken every 16 scheduler steps. " +
+			"Non-trivial: >= 40 builder operations and >= 4 task switches; distinct = distinct (programs, schedule trace, operation histories).",
+		Assumptions: []string{
+			"each task has its own importer; imported types.Package objects are not shared between tasks (the property's premise)",
+			"a change of a package-level table, flag or pool is counted as an observation; a change of a package-level node/object (pointer, struct, interface) is a violation",
+			"debug flags are off (log's mutex would be a happens-before edge between tasks)",
+			"sampling: the race detector sees the accesses that the explored programs and interleavings perform",
+		},
+		Components: realStub,
+	}
 	return m
 }
